@@ -68,8 +68,13 @@ def main():
     out = []
     for case in payload["cases"]:
         cache = {}
-        a = build(case["a"], cache)
-        b = build(case["b"], cache)
+        try:
+            a = build(case["a"], cache)
+            b = build(case["b"], cache)
+        except Exception as e:   # creating an operand must never fail: reported as an all-invalid row
+            out.append({"ka": ["", ""], "kb": ["", ""], "rab": [3] * 6, "rba": [3] * 6, "heq": False,
+                        "build_error": "%s: %s" % (type(e).__name__, e)})
+            continue
         out.append({"ka": key(a, case["a"]), "kb": key(b, case["b"]), "rab": row(a, b), "rba": row(b, a),
                     "heq": hash(a) == hash(b)})
     _boot.write_result({"obs": out})
